@@ -1,3 +1,4 @@
+pub mod btorgen;
 pub mod engine;
 pub mod gen_expr;
 pub mod props;
